@@ -164,17 +164,24 @@ func findEmissions(fn *Func, sel emitSel) []ast.Node {
 					out = append(out, call)
 				}
 			}
-		case emReturnTrue:
+		case emReturnTrue, emReturnFalse:
 			if rs, ok := n.(*ast.ReturnStmt); ok && len(rs.Results) >= 1 {
 				last := rs.Results[len(rs.Results)-1]
-				if id, ok := ast.Unparen(last).(*ast.Ident); ok && id.Name == "true" {
-					out = append(out, rs)
+				want := "true"
+				if sel.kind == emReturnFalse {
+					want = "false"
 				}
-			}
-		case emReturnFalse:
-			if rs, ok := n.(*ast.ReturnStmt); ok && len(rs.Results) >= 1 {
-				last := rs.Results[len(rs.Results)-1]
-				if id, ok := ast.Unparen(last).(*ast.Ident); ok && id.Name == "false" {
+				if id, ok := ast.Unparen(last).(*ast.Ident); ok && (id.Name == "true" || id.Name == "false") {
+					if id.Name == want {
+						out = append(out, rs)
+					}
+				} else if bt, ok := info.TypeOf(last).Underlying().(*types.Basic); ok && bt.Kind() == types.Bool {
+					// `return cond`: returns true exactly under cond (false under !cond)
+					root := rootFunc(fn)
+					if root.extraGuard == nil {
+						root.extraGuard = map[ast.Node]*Formula{}
+					}
+					root.extraGuard[rs] = decompose(last, sel.kind == emReturnTrue, nil)
 					out = append(out, rs)
 				}
 			}
@@ -403,6 +410,11 @@ func atomMatches(fn *Func, a *Atom, g guard) bool {
 			if sameText(fn, cmpText(e), g.name) {
 				return a.Pol == g.pol
 			}
+			for _, alt := range inlinedVariants(fn, be0) {
+				if sameText(fn, cmpText(alt), g.name) {
+					return a.Pol == g.pol
+				}
+			}
 			// len(x) == 0  ≡  !(len(x) > 0);  len(x) != 0  ≡  len(x) > 0
 			if c, isC := ast.Unparen(be0.X).(*ast.CallExpr); isC && isLenCall(info, c) && exprStr(be0.Y) == "0" && (be0.Op == token.EQL || be0.Op == token.NEQ) {
 				if sameText(fn, cmpText(&ast.BinaryExpr{X: be0.X, Op: token.GTR, Y: be0.Y}), g.name) {
@@ -502,6 +514,42 @@ func guardHolds(p5c *p5, fn *Func, at ast.Node, g guard) bool {
 				if def := fn.SingleDef(fn.Info().ObjectOf(id)); def != nil && lastSel(def) == g.name {
 					return true
 				}
+			}
+		}
+		// a counting loop bounded by the collection's length: for i := …; i < len(xs); i++
+		for c := ast.Node(at); c != nil; c = fn.Prog.parents[c] {
+			fs, ok := fn.Prog.parents[c].(*ast.ForStmt)
+			if !ok || fs.Body != c || fs.Cond == nil {
+				continue
+			}
+			found := false
+			var conj func(e ast.Expr)
+			conj = func(e ast.Expr) {
+				b, ok := ast.Unparen(e).(*ast.BinaryExpr)
+				if !ok {
+					return
+				}
+				if b.Op == token.LAND {
+					conj(b.X)
+					conj(b.Y)
+					return
+				}
+				if b.Op != token.LSS && b.Op != token.LEQ {
+					return
+				}
+				bound := ast.Unparen(b.Y)
+				if id, ok := bound.(*ast.Ident); ok {
+					if def := fn.SingleDef(fn.Info().ObjectOf(id)); def != nil {
+						bound = ast.Unparen(def)
+					}
+				}
+				if c, ok := bound.(*ast.CallExpr); ok && isLenCall(fn.Info(), c) && lastSel(c.Args[0]) == g.name {
+					found = true
+				}
+			}
+			conj(fs.Cond)
+			if found {
+				return true
 			}
 		}
 		return false
@@ -634,6 +682,16 @@ func safeAtom(fn *Func, a *Atom) bool {
 		return true
 	}
 	e := ast.Unparen(a.E)
+	// the condition of a counting loop bounds the iteration; it is not a data filter
+	for c := ast.Node(a.E); c != nil; c = fn.Prog.parents[c] {
+		par := fn.Prog.parents[c]
+		if fs, ok := par.(*ast.ForStmt); ok && fs.Cond == c {
+			return true
+		}
+		if _, ok := par.(ast.Expr); !ok {
+			break
+		}
+	}
 	switch x := e.(type) {
 	case *ast.BinaryExpr:
 		if isNilIdent(info, x.X) || isNilIdent(info, x.Y) {
@@ -818,13 +876,24 @@ func runRows(prop string) func(p *Prog, r *Report) {
 // condition that is exactly the disjunction of the given comparisons.
 func checkDisjunction(p *Prog, fn *Func, em ast.Node, want []string) string {
 	var ifs *ast.IfStmt
+	var caseAlts []string
 	for x := p.Parent(em); x != nil; x = p.Parent(x) {
 		if s, ok := x.(*ast.IfStmt); ok && nodeContains(s.Body, em) {
 			ifs = s
 			break
 		}
+		// `switch tag { case A, B: … }` is the disjunction tag == A || tag == B
+		if cc, ok := x.(*ast.CaseClause); ok && cc.List != nil {
+			if sw, ok := fn.enclosingSwitch(cc).(*ast.SwitchStmt); ok && sw.Tag != nil {
+				caseAlts = []string{}
+				for _, v := range cc.List {
+					caseAlts = append(caseAlts, cmpText(&ast.BinaryExpr{X: sw.Tag, Op: token.EQL, Y: v}))
+				}
+				break
+			}
+		}
 	}
-	if ifs == nil {
+	if ifs == nil && caseAlts == nil {
 		return "the emission is not conditional any more (expected under: " + strings.Join(want, " || ") + ")"
 	}
 	var alts []string
@@ -836,9 +905,25 @@ func checkDisjunction(p *Prog, fn *Func, em ast.Node, want []string) string {
 			split(be.Y)
 			return
 		}
+		// a named boolean: `ok := a || b; if ok {`
+		if id, isId := e.(*ast.Ident); isId {
+			if def := fn.SingleDef(fn.Info().ObjectOf(id)); def != nil {
+				if _, isB := ast.Unparen(def).(*ast.BinaryExpr); isB {
+					split(def)
+					return
+				}
+			}
+		}
 		alts = append(alts, cmpText(e))
 	}
-	split(ifs.Cond)
+	condText := ""
+	if caseAlts != nil {
+		alts = caseAlts
+		condText = "case " + strings.Join(caseAlts, ", ")
+	} else {
+		split(ifs.Cond)
+		condText = cmpText(ifs.Cond)
+	}
 	have := map[string]bool{}
 	for _, a := range alts {
 		have[a] = true
@@ -870,7 +955,7 @@ func checkDisjunction(p *Prog, fn *Func, em ast.Node, want []string) string {
 	if len(missing) == 0 && len(extra) == 0 {
 		return ""
 	}
-	msg := "the guarding condition is " + cmpText(ifs.Cond)
+	msg := "the guarding condition is " + condText
 	if len(missing) > 0 {
 		msg += "; missing alternative(s): " + strings.Join(missing, ", ")
 	}
@@ -1012,6 +1097,7 @@ func localNames(fn *Func) map[string]bool {
 	}
 	out := map[string]bool{}
 	root.localTypes = map[string][]types.Type{}
+	root.localObjs = map[string][]types.Object{}
 	info := root.Info()
 	if root.Decl != nil {
 		if root.Decl.Recv != nil {
@@ -1034,6 +1120,7 @@ func localNames(fn *Func) map[string]bool {
 			if v, ok := info.Defs[id].(*types.Var); ok && !v.IsField() {
 				out[id.Name] = true
 				root.localTypes[id.Name] = append(root.localTypes[id.Name], v.Type())
+				root.localObjs[id.Name] = append(root.localObjs[id.Name], v)
 			}
 		}
 		return true
@@ -1085,7 +1172,7 @@ func tokensMatch(fn *Func, ct, rt []string, m map[string]string) bool {
 		if !locals[c] {
 			return false
 		}
-		if locals[r] {
+		if locals[r] && !shadowSource(fn, c, r) {
 			return false // the row's name still exists in the function: not a rename
 		}
 		if prev, ok := m[c]; ok {
@@ -1118,4 +1205,106 @@ func containsText(fn *Func, code, row string) bool {
 		}
 	}
 	return false
+}
+
+// shadowSource: the variable named c is defined from a lookup / call on the variable named r
+// (v, ok := r[k]). The row may have been written when that variable shadowed r under r's own
+// name; renaming it away from r is a rename, not a swap.
+func shadowSource(fn *Func, c, r string) bool {
+	root := rootFunc(fn)
+	localNames(fn)
+	info := root.Info()
+	for _, o := range root.localObjs[c] {
+		for f := range allFuncsOf(root) {
+			for _, asn := range f.Assignments(o) {
+				as, ok := asn.(*ast.AssignStmt)
+				if !ok || len(as.Rhs) != 1 {
+					continue
+				}
+				if b := identOfExpr(as.Rhs[0]); b != nil && b.Name == r {
+					if _, isVar := info.ObjectOf(b).(*types.Var); isVar {
+						return true
+					}
+				}
+				if ix, ok := ast.Unparen(as.Rhs[0]).(*ast.IndexExpr); ok {
+					if b, ok := ast.Unparen(ix.X).(*ast.Ident); ok && b.Name == r {
+						return true
+					}
+				}
+			}
+		}
+	}
+	return false
+}
+
+func allFuncsOf(root *Func) map[*Func]bool {
+	out := map[*Func]bool{root: true}
+	for _, f := range root.Prog.Funcs {
+		if f.Lit != nil && rootFunc(f) == root {
+			out[f] = true
+		}
+	}
+	return out
+}
+
+// inlinedVariants: the comparison with single-definition pure locals replaced by their
+// definitions (each one alone, and all together).
+func inlinedVariants(fn *Func, be *ast.BinaryExpr) []ast.Expr {
+	info := fn.Info()
+	type cand struct {
+		o   types.Object
+		def ast.Expr
+	}
+	var cs []cand
+	seen := map[types.Object]bool{}
+	ast.Inspect(be, func(z ast.Node) bool {
+		id, ok := z.(*ast.Ident)
+		if !ok {
+			return true
+		}
+		o := info.ObjectOf(id)
+		v, ok := o.(*types.Var)
+		if !ok || v.IsField() || seen[o] || v.Pkg() == nil || v.Parent() == v.Pkg().Scope() {
+			return true
+		}
+		seen[o] = true
+		root := rootFunc(fn)
+		var def ast.Expr
+		for f := range allFuncsOf(root) {
+			if d := f.SingleDef(o); d != nil {
+				def = d
+			}
+		}
+		if def == nil {
+			return true
+		}
+		pure := true
+		ast.Inspect(def, func(k ast.Node) bool {
+			switch x := k.(type) {
+			case *ast.CallExpr:
+				if !isLenCall(info, x) {
+					if f := calleeOf(info, x); f == nil || !pureMethods[f.Name()] {
+						pure = false
+					}
+				}
+			case *ast.FuncLit, *ast.TypeAssertExpr:
+				pure = false
+			}
+			return pure
+		})
+		if pure {
+			cs = append(cs, cand{o, def})
+		}
+		return true
+	})
+	var out []ast.Expr
+	all := ast.Expr(be)
+	for _, c := range cs {
+		out = append(out, substExpr(be, c.o, c.def, info))
+		all = substExpr(all, c.o, c.def, info)
+	}
+	if len(cs) > 1 {
+		out = append(out, all)
+	}
+	return out
 }
